@@ -185,7 +185,7 @@ fn canon_tree(out: &ChildOut, pair_calls: bool) -> String {
         } else if pair_calls {
             let call = calls.get(k).map(|s| s.as_str()).unwrap_or("NOCALL");
             k += 1;
-            items.push(format!("X:{}#{}", enc(&path), call));
+            items.push(format!("X:{}={}", enc(&path), call));
         } else {
             items.push(format!("X:{}", enc(&path)));
         }
